@@ -108,13 +108,23 @@ func hopByHopHeaderRemove(outreq, req *bfe_http.Request) {
 	// is modifying the same underlying map from req (shallow
 	// copied above) so we only copy it if necessary.
 	copiedHeaders := false
-	for _, h := range bfe_basic.HopHeaders {
-		hv := outreq.Header.Get(h)
-		if hv == "" {
+	// Headers named by the tokens of the Connection header are hop-by-hop
+	// as well (RFC 7230, section 6.1).
+	hopHeaders := bfe_basic.HopHeaders[:len(bfe_basic.HopHeaders):len(bfe_basic.HopHeaders)]
+	for _, f := range req.Header["Connection"] {
+		for _, sf := range strings.Split(f, ",") {
+			if sf = strings.TrimSpace(sf); sf != "" {
+				hopHeaders = append(hopHeaders, bfe_http.CanonicalHeaderKey(sf))
+			}
+		}
+	}
+	for _, h := range hopHeaders {
+		hvs := outreq.Header[h]
+		if len(hvs) == 0 {
 			continue
 		}
 
-		if h == "Te" && hv == "trailers" {
+		if h == "Te" && len(hvs) == 1 && hvs[0] == "trailers" {
 			// Issue 21096: tell backend applications that
 			// care about trailer support that we support
 			// trailers. (We do, but we don't go out of
